@@ -2,7 +2,7 @@
 import ast
 
 from sa.program import src, own_nodes, call_name, parent, kwarg, AnchorMissing
-from sa import guards
+from sa import guards, resolve
 
 EXPLANATION = (
     "Static rules over pyiga/assemble.py (class Multipatch): (R14.1) union completeness of join_dofs: the pair loop is a union step, "
@@ -322,7 +322,31 @@ def r14_5(ctx):
                'so the two faces of an interface are paired in the wrong orientation (3D interface across the middle axis)', definite=True)
 
 
+def r14_6(ctx):
+    """Multipatch.join_boundaries hands EVERY declared interface to join_dofs: there is no exit before that call (an "already
+    joined" shortcut that looks at part of the interface -- its end vertices -- skips interior dofs whenever the vertices were
+    identified through other patches first)."""
+    f = ctx.prog.func(A + '.Multipatch.join_boundaries')
+    calls = [c for c in ast.walk(f.node) if isinstance(c, ast.Call) and isinstance(c.func, ast.Attribute) and c.func.attr == 'join_dofs']
+    if not calls:
+        ctx.undecided('R14.6', f.qual, 'call of join_dofs', f.node, 'not found')
+        return
+    st = resolve.stmt_of(calls[0])
+    early = [r for r in ast.walk(f.node) if isinstance(r, ast.Return) and r.lineno < st.lineno]
+    cond = guards.path_conditions(st)
+    if early:
+        facts = ' and '.join(('' if p_ else 'not ') + t for (t, p_, _n) in guards.path_conditions(early[0])) or 'always'
+        ctx.violated('R14.6', f.qual, 'return before %s (taken when %s)' % (src(calls[0])[:50], facts[:120]), early[0],
+                     'an interface can be dropped without its dofs being identified: the gluing is no longer the equivalence closure of the declared '
+                     'joins (3x2 block, middle interface declared last: 72 dofs instead of 70)')
+    elif cond:
+        ctx.undecided('R14.6', f.qual, src(calls[0])[:70] + ' is conditional', st, 'join performed only under ' + cond[0][0][:80])
+    else:
+        ctx.met('R14.6', f.qual, src(calls[0])[:70], st, 'every declared interface reaches join_dofs')
+
+
 def run(ctx):
+    r14_6(ctx)
     r14_5(ctx)
     r14_1(ctx)
     r14_2(ctx)
